@@ -252,7 +252,7 @@ def main():
     os.makedirs(REPLAYS, exist_ok=True)
     log = []
     mod = importlib.import_module("gen." + pid.lower())
-    binname = getattr(mod, "BIN", pid.lower())
+    binname = getattr(mod, "HARNESS_BIN", pid.lower())
     rng = random.Random(seed * 1000003 + int(pid[1:]))
 
     # 1. proof obligations
